@@ -102,10 +102,22 @@ def CallX (uf : Nat) (dyn : Dyn → St → Term → Res Out) (call : Term → St
     ∀ (x l sT rD : Term), W.Eq x l → All2 W.Eq asS asD → W.Eq sT rD →
       RelX W (fun _ => False) (call (Term.mk f (asS ++ [x, sT])) W.stS) (post uf rD (dyn (.nt f asD) W.stD l))
 
+/-- call//1, arbitrary remainder argument -/
+def Call1X (uf : Nat) (dyn : Dyn → St → Term → Res Out) (call : Term → St → Res SOut) : Prop :=
+  ∀ (gS gD : Term) (W : World), W.Good → ∀ (x l sT rD : Term), W.Eq x l → W.Eq gS gD → W.Eq sT rD →
+    RelX W (fun _ => False) (call (Term.a3 "call" gS x sT) W.stS) (post uf rD (denCall1 dyn gD W.stD l))
+
+/-- phrase//1 and variable bodies, arbitrary remainder argument -/
+def LateX (uf : Nat) (dyn : Dyn → St → Term → Res Out) (call : Term → St → Res SOut) : Prop :=
+  ∀ (gS gD : Term) (W : World), W.Good → ∀ (x l sT rD : Term), W.Eq x l → W.Eq gS gD → W.Eq sT rD →
+    RelX W (fun _ => False) (call (Term.a3 "phrase" gS x sT) W.stS)
+      (post uf rD (barrier (dyn (.late gD) W.stD l)))
+
 /-- **bodies, arbitrary remainder argument** -/
 theorem body_simX (cfg : Cfg) (hcfg : cfg.engine = false)
     (dyn : Dyn → St → Term → Res Out) (call : Term → St → Res SOut) (H : CallW false dyn call)
-    (HX : CallX cfg.uf dyn call) :
+    (HE : DynErr dyn) (HC : Call1W dyn call) (HL : LateW dyn call)
+    (HX : CallX cfg.uf dyn call) (HCX : Call1X cfg.uf dyn call) (HLX : LateX cfg.uf dyn call) :
     ∀ (bS : Body), bS.ok false = true → ∀ (bD : Body) (W : World), BodyRel W.Eq bS bD →
       ∀ (top : Bool) (x l sT rD : Term) (m : Nat), PreX W x l sT rD m (m + bS.nhid) →
         RelX W (FrX m (m + bS.nhid)) (solveGoal cfg.uf call (bS.tr x sT m).1 W.stS)
@@ -173,10 +185,16 @@ theorem body_simX (cfg : Cfg) (hcfg : cfg.engine = false)
     intro hok bD W hrel top x l sT rD m P
     cases hrel with
     | nt hargs =>
-      simp only [Body.ok] at hok
+      rename_i asD
       simp only [Body.tr, denBody]
-      rw [solveGoal_nt _ _ _ _ _ _ _ (ntOK_ctl hok)]
-      exact (HX f asS _ hok W P.good x l sT rD P.inp hargs P.rem).mono (fun _ h => h.elim)
+      cases hnt : ntOK false f asS with
+      | true =>
+        rw [solveGoal_nt _ _ _ _ _ _ _ (ntOK_ctl hnt)]
+        exact (HX f asS _ hnt W P.good x l sT rD P.inp hargs P.rem).mono (fun _ h => h.elim)
+      | false =>
+        obtain ⟨e, he⟩ := HE f asD (by rw [← ntOK_false_len f hargs.length_eq]; exact hnt) W.stD l
+        rw [he]
+        exact RelX.errD _
   | seq a b iha ihb =>
     intro hok bD W hrel top x l sT rD m P
     cases hrel with
@@ -187,7 +205,7 @@ theorem body_simX (cfg : Cfg) (hcfg : cfg.engine = false)
       simp only [Body.tr, tr_next]
       rw [solveGoal_conj', denBody_seq]
       refine RelX.of_ok (post_dConj cfg.uf rD _ _) ?_
-      refine conjG (body_simW cfg hcfg false dyn call H a hok.1 a' W ha false x l m (m + 1) P.first) _ _ ?_ ?_ ?_
+      refine conjG (body_simW cfg hcfg false dyn call H (fun _ => HE) (fun _ => HC) (fun _ => HL) a hok.1 a' W ha false x l m (m + 1) P.first) _ _ ?_ ?_ ?_
         (P2 := FrX (m + 1 + a.nhid) (m + 1 + a.nhid + b.nhid))
       · intro W' r g st he
         exact ihb hok.2 b' W' (hb.mono (fun _ _ h => st.eq _ _ h)) false (.var m) r sT rD (m + 1 + a.nhid)
@@ -204,8 +222,17 @@ theorem body_simX (cfg : Cfg) (hcfg : cfg.engine = false)
       rename_i a' b'
       simp only [Body.ok, Bool.and_eq_true, Bool.not_eq_true'] at hok
       simp only [Body.nhid] at P ⊢
+      by_cases hne : a = .nt "->" []
+      · subst hne
+        cases ha with
+        | nt hargs =>
+          cases hargs
+          obtain ⟨e, he⟩ := HE "->" [] (by simp [ntOK, special, ctl2]) W.stD l
+          rw [denBody_alt cfg hcfg]
+          simp only [denBody, he, dAlt]
+          exact RelX.errD _
       simp only [Body.tr, tr_next]
-      rw [solveGoal_disj' _ _ _ _ _ (tr_notThen2 false a hok.1.1 hok.2 _ _ _), denBody_alt cfg hcfg]
+      rw [solveGoal_disj' _ _ _ _ _ (tr_notThen2 false a hok.1.1 hok.2 hne _ _ _), denBody_alt cfg hcfg]
       refine RelX.of_ok (post_dAlt cfg.uf rD _ _) ?_
       have Pa : PreX W x l sT rD m (m + a.nhid) :=
         ⟨P.good, P.inp, P.rem, fun v h1 h2 => P.hUn v h1 (by omega), by have := P.hLt; omega⟩
@@ -230,7 +257,7 @@ theorem body_simX (cfg : Cfg) (hcfg : cfg.engine = false)
           fun v h1 h2 => P.hUn v (by omega) (by omega), by have := P.hLt; omega, fun h => by omega⟩
       have Pe : PreX W x l sT rD (m + 1 + c.nhid + t.nhid) (m + 1 + c.nhid + t.nhid + e.nhid) :=
         ⟨P.good, P.inp, P.rem, fun v h1 h2 => P.hUn v (by omega) (by omega), by have := P.hLt; omega⟩
-      refine iteG (body_simW cfg hcfg false dyn call H c hok.1.1 c' W hc true x l m (m + 1) Pc) _ _ ?_
+      refine iteG (body_simW cfg hcfg false dyn call H (fun _ => HE) (fun _ => HC) (fun _ => HL) c hok.1.1 c' W hc true x l m (m + 1) Pc) _ _ ?_
         ((ihe hok.2 e' W he true x l sT rD _ Pe).mono ?_) ?_ ?_
         (P2 := FrX (m + 1 + c.nhid) (m + 1 + c.nhid + t.nhid))
       · intro W' r g st hr
@@ -252,7 +279,7 @@ theorem body_simX (cfg : Cfg) (hcfg : cfg.engine = false)
       rw [solveGoal_ifthen', denBody_ifthen cfg hcfg]
       refine RelX.of_ok (post_dIte cfg.uf rD _ _ _) ?_
       rw [post_nil]
-      refine iteG (body_simW cfg hcfg false dyn call H c hok.1 c' W hc true x l m (m + 1) P.first) _ _ ?_
+      refine iteG (body_simW cfg hcfg false dyn call H (fun _ => HE) (fun _ => HC) (fun _ => HL) c hok.1 c' W hc true x l m (m + 1) P.first) _ _ ?_
         ⟨rfl, .nil⟩ ?_ ?_ (P2 := FrX (m + 1 + c.nhid) (m + 1 + c.nhid + t.nhid))
       · intro W' r g st hr
         exact iht hok.2 t' W' (ht.mono (fun _ _ h => st.eq _ _ h)) true (.var m) r sT rD (m + 1 + c.nhid)
@@ -269,7 +296,7 @@ theorem body_simX (cfg : Cfg) (hcfg : cfg.engine = false)
       simp only [Body.ok] at hok
       simp only [Body.tr]
       rw [solveGoal_conj', denBody_block]
-      have hb := block_sim false cfg.uf call hg hok W P.good (fun _ _ h => h) l
+      have hb := block_sim false cfg.uf call hg (.inr rfl) W P.good (fun _ _ h => h) l
       cases hd : dBlock (evalBlock cfg.uf gD W.stD) l with
       | error e => exact RelX.errD _
       | ok od =>
@@ -288,7 +315,7 @@ theorem body_simX (cfg : Cfg) (hcfg : cfg.engine = false)
       have Pb : PreW W x l m (m + 1) (m + 1 + b.nhid) :=
         ⟨P.good, P.inp, P.hUn m (Nat.le_refl _) (by omega), by have := P.hLt; omega,
           fun v h1 h2 => P.hUn v (by omega) (by omega), by have := P.hLt; omega, fun h => by omega⟩
-      have rb := body_simW cfg hcfg false dyn call H b hok b' W hb true x l m (m + 1) Pb
+      have rb := body_simW cfg hcfg false dyn call H (fun _ => HE) (fun _ => HC) (fun _ => HL) b hok b' W hb true x l m (m + 1) Pb
       cases hx : solveGoal cfg.uf call (b.tr x (.var m) (m + 1)).1 W.stS with
       | error e => exact RelX.errS _
       | ok ob =>
@@ -309,7 +336,30 @@ theorem body_simX (cfg : Cfg) (hcfg : cfg.engine = false)
     rw [solveGoal_conj', solveGoal_cut]
     simp only [denBody]
     exact tailX P (RelG.same P.good l true)
-  | _ => intro hok; simp [Body.ok] at hok
+  | call1 gS =>
+    intro _ bD W hrel top x l sT rD m P
+    cases hrel with
+    | call1 hg =>
+      simp only [Body.tr]
+      rw [solveGoal_a3]
+      simp only [denBody]
+      exact (HCX gS _ W P.good x l sT rD P.inp hg P.rem).mono (fun _ h => h.elim)
+  | phrase gS =>
+    intro _ bD W hrel top x l sT rD m P
+    cases hrel with
+    | phrase hg =>
+      simp only [Body.tr]
+      rw [solveGoal_a3]
+      simp only [denBody]
+      exact (HLX gS _ W P.good x l sT rD P.inp hg P.rem).mono (fun _ h => h.elim)
+  | var v =>
+    intro _ bD W hrel top x l sT rD m P
+    cases hrel with
+    | var hg =>
+      simp only [Body.tr]
+      rw [solveGoal_a3]
+      simp only [denBody]
+      exact (HLX (.var v) _ W P.good x l sT rD P.inp hg P.rem).mono (fun _ h => h.elim)
 
 /-! ### head unification, arbitrary remainder argument -/
 
@@ -408,15 +458,6 @@ def LevelX (cfg : Cfg) (gr : Grammar) (n : Nat) : Prop :=
       RelX W (FrX m (m + bS.nhid)) (solve cfg.uf (programOf gr) n (bS.tr x sT m).1 W.stS)
         (post cfg.uf rD (den cfg gr n top bD W.stD l))
 
-theorem RelG.rebase' {strict : Bool} {W W' : World} {P1 P2 Q : Nat → Prop} {φ : World → Term → Prop}
-    {rS : Res SOut} {rD : Res Out}
-    (h : RelG strict W' P2 φ rS rD) (hs : Step W W' P1) (h1 : ∀ v, P1 v → Q v) (h2 : ∀ v, P2 v → Q v ∨ W.nS ≤ v) :
-    RelG strict W Q φ rS rD := by
-  cases rS <;> cases rD <;> simp_all [RelG]
-  refine h.2.imp (fun _ _ h => ?_)
-  obtain ⟨W'', e1, e2, g, st, he⟩ := h
-  exact ⟨W'', e1, e2, g, hs.trans' st h1 h2, he⟩
-
 /-- `S' = [pb… | S1']` closing a clause with push-back, `S'` being what the third argument is:
     against unifying `[pb… | rem]` with the third argument -/
 theorem pushStepX (uf : Nat) (call : Term → St → Res SOut) {W : World} {sT rD t r : Term}
@@ -447,7 +488,7 @@ theorem rule_simX (cfg : Cfg) (hcfg : cfg.engine = false) (gr : Grammar) (hgr : 
   simp only [Rule.wf, Bool.and_eq_true] at hwf
   obtain ⟨⟨_, hpbwf⟩, hbwf⟩ := hwf
   have hokS : (r.body.rename W.nS).ok false = true := by rw [ok_rename]; exact hok
-  have hrel : BodyRel W3.Eq (r.body.rename W.nS) (r.body.rename W.nD) := rename_bodyRel false hv r.body hok hbwf
+  have hrel : BodyRel W3.Eq (r.body.rename W.nS) (r.body.rename W.nD) := rename_bodyRel hv r.body hbwf
   rw [clause_eq]
   unfold denRule
   cases hpb : r.pushback with
@@ -608,7 +649,7 @@ theorem nt_levelX (cfg : Cfg) (gr : Grammar) (hgr : ∀ r ∈ gr, special r.name
   | true =>
     have P : PreX W x l sT rD 0 (0 + (Body.nt f asS).nhid) :=
       ⟨hW, hx, hr, fun v _ h => by simp [Body.nhid] at h, by simp [Body.nhid]⟩
-    have := ih (.nt f asS) hok (.nt f asD) W (.nt has) true x l sT rD 0 P
+    have := ih (.nt f asS) (by simp [Body.ok, hok]) (.nt f asD) W (.nt has) true x l sT rD 0 P
     exact RelX.of_ok (post_barrier cfg.uf rD _) ((RelG.barrier this).mono (fun v h => by
       simp [FrX, Body.nhid] at h))
   | false =>
@@ -704,6 +745,122 @@ theorem call_simX (cfg : Cfg) (hcfg : cfg.engine = false) (gr : Grammar) (hgr : 
           | error e => exact RelX.errS _
           | ok as => exact ⟨rfl, hrs⟩
 
+/-! ### call//1, phrase//1, variable bodies -/
+
+theorem nt_call1X (cfg : Cfg) (gr : Grammar) (hgr : ∀ r ∈ gr, special r.name r.args.length = false) (n : Nat)
+    (CX : CallX cfg.uf (dynH cfg gr n) (callH cfg.uf (programOf gr) n)) (f : String) (asS asD : List Term)
+    {W : World} (hW : W.Good) {x l sT rD : Term} (hx : W.Eq x l) (has : All2 W.Eq asS asD) (hr : W.Eq sT rD) :
+    RelX W (fun _ => False)
+      (sBarrier (solve cfg.uf (programOf gr) n (Term.mk f (asS ++ [x, sT])) W.stS))
+      (post cfg.uf rD (barrier (dynH cfg gr n (.nt f asD) W.stD l))) := by
+  cases hS : solve cfg.uf (programOf gr) n (Term.mk f (asS ++ [x, sT])) W.stS with
+  | error e => exact RelX.errS _
+  | ok A =>
+    have hS' := solve_mono cfg.uf (programOf gr) n _ _ A hS
+    rw [solve_succ] at hS'
+    cases hnt : ntOK false f asS with
+    | true =>
+      rw [solveGoal_nt _ _ _ _ _ _ _ (ntOK_ctl hnt)] at hS'
+      have := CX f asS asD hnt W hW x l sT rD hx has hr
+      rw [hS'] at this
+      exact RelX.of_ok (post_barrier cfg.uf rD _) (RelG.barrier this)
+    | false =>
+      obtain ⟨e, he⟩ := dynH_special_err cfg gr hgr n f asD
+        (by rw [← ntOK_false_len f has.length_eq]; exact hnt) W.stD l
+      rw [he]
+      exact RelX.errD _
+
+theorem call1_simX (cfg : Cfg) (gr : Grammar) (hgr : ∀ r ∈ gr, special r.name r.args.length = false) (n : Nat)
+    (CX : CallX cfg.uf (dynH cfg gr n) (callH cfg.uf (programOf gr) n)) :
+    Call1X cfg.uf (dynH cfg gr n) (callH cfg.uf (programOf gr) n) := by
+  intro gS gD W hW x l sT rD hx hg hr
+  rw [callH_call3]
+  unfold denCall1
+  have hσS : W.stS.σ = W.σS := rfl
+  have hσD : W.stD.σ = W.σD := rfl
+  rw [hσS, hσD]
+  have hgg := (W.Eq_unfold gS gD).1 hg
+  revert hgg
+  cases hwS : walk W.σS gS with
+  | atom f' =>
+    intro hgg
+    have hwD : walk W.σD gD = .atom f' := by
+      revert hgg; generalize walk W.σD gD = w; intro hgg; cases hgg; rfl
+    rw [hwD]
+    simp only [addArgs]
+    exact nt_call1X cfg gr hgr n CX f' [] [] hW hx .nil hr
+  | app f' bsS =>
+    intro hgg
+    obtain ⟨bsD, hwD, hbs⟩ : ∃ bsD, walk W.σD gD = .app f' bsD ∧ ArgsRel W.Eq bsS bsD := by
+      revert hgg; generalize walk W.σD gD = w; intro hgg
+      cases hgg with
+      | app r => exact ⟨_, rfl, r⟩
+    rw [hwD]
+    simp only [addArgs]
+    exact nt_call1X cfg gr hgr n CX f' bsS.toList bsD.toList hW hx (argsRel_toList hbs) hr
+  | var a => intro _; simp only [addArgs]; exact RelX.errS _
+  | int a => intro _; simp only [addArgs]; exact RelX.errS _
+  | flt a => intro _; simp only [addArgs]; exact RelX.errS _
+  | str a => intro _; simp only [addArgs]; exact RelX.errS _
+
+theorem late_coreX (cfg : Cfg) (gr : Grammar) (n : Nat) (ih : LevelX cfg gr n)
+    {W : World} (hW : W.Good) {x l sT rD : Term} (hx : W.Eq x l) (hr : W.Eq sT rD)
+    {tS tD : Term} (ht : TRel W.ρ tS tD) :
+    RelX W (fun _ => False)
+      (match Body.ofTerm tS with
+       | .error _ => .error (.unsupported "phrase/3: not a grammar body")
+       | .ok bb => sBarrier (solve cfg.uf (programOf gr) n (bb.tr x sT W.stS.next).1
+           { W.stS with next := (bb.tr x sT W.stS.next).2 }))
+      (post cfg.uf rD (barrier (match Body.ofTerm tD with
+       | .error _ => .error (.unsupported "run-time body is not a grammar body")
+       | .ok b' => den cfg gr n true b' W.stD l))) := by
+  have ho := ofTerm_sim tS tD ht
+  revert ho
+  cases hoS : Body.ofTerm tS with
+  | error e => intro _; exact RelX.errS _
+  | ok bb =>
+    cases hoD : Body.ofTerm tD with
+    | error e => intro ho; exact ho.elim
+    | ok b' =>
+      intro ho
+      simp only []
+      obtain ⟨g1, st1⟩ := World.bumpS_ok hW bb.nhid
+      have hrel : BodyRel (W.bumpS bb.nhid).Eq bb b' :=
+        (BodyRel.mono ho (fun a b h => st1.eq _ _ (trel_eq hW a b h)))
+      have P : PreX (W.bumpS bb.nhid) x l sT rD W.nS (W.nS + bb.nhid) :=
+        ⟨g1, st1.eq _ _ hx, st1.eq _ _ hr, fun v h1 _ ht => by have := hW.scS v ht; omega, Nat.le_refl _⟩
+      have := ih bb (ofTerm_ok tS bb hoS) b' (W.bumpS bb.nhid) hrel true x l sT rD W.nS P
+      have e1 : ({ W.stS with next := (bb.tr x sT W.stS.next).2 } : St) = (W.bumpS bb.nhid).stS := by
+        rw [tr_next]; rfl
+      rw [e1]
+      refine RelX.of_ok (post_barrier cfg.uf rD _) ?_
+      exact RelG.rebase' (RelG.barrier this) st1 (fun _ h => h.elim) (fun v h => .inr h.1)
+
+theorem late_simX (cfg : Cfg) (gr : Grammar) (n : Nat) (ih : LevelX cfg gr n) :
+    LateX cfg.uf (dynH cfg gr n) (callH cfg.uf (programOf gr) n) := by
+  intro gS gD W hW x l sT rD hx hg hr
+  rw [callH_phrase3, dynH_late]
+  have hσS : W.stS.σ = W.σS := rfl
+  have hσD : W.stD.σ = W.σD := rfl
+  rw [hσS, hσD]
+  have hres := resolve_sim W cfg.uf gS gD (hg cfg.uf)
+  revert hres
+  cases resolve cfg.uf W.σS gS with
+  | none => intro _; exact RelX.errS _
+  | some tS =>
+    cases resolve cfg.uf W.σD gD with
+    | none => intro h; exact h.elim
+    | some tD =>
+      intro ht
+      have ht' : TRel W.ρ tS tD := ht
+      cases ht' with
+      | var r => exact RelX.errS _
+      | atom a => exact late_coreX cfg gr n ih hW hx hr (.atom a)
+      | int a => exact late_coreX cfg gr n ih hW hx hr (.int a)
+      | flt a => exact late_coreX cfg gr n ih hW hx hr (.flt a)
+      | str a => exact late_coreX cfg gr n ih hW hx hr (.str a)
+      | app r => exact late_coreX cfg gr n ih hW hx hr (.app r)
+
 /-- **semantic preservation with an arbitrary third argument, at every fuel level** -/
 theorem level_simX (cfg : Cfg) (hcfg : cfg.engine = false) (gr : Grammar)
     (hgr : ∀ r ∈ gr, GoodRuleW false r) : ∀ n, LevelX cfg gr n := by
@@ -713,7 +870,12 @@ theorem level_simX (cfg : Cfg) (hcfg : cfg.engine = false) (gr : Grammar)
   | succ n ih =>
     intro bS hok bD W hrel top x l sT rD m P
     rw [solve_succ, den_succ]
-    exact body_simX cfg hcfg _ _ (call_simW false cfg gr hgr n (level_simW false cfg hcfg gr hgr n))
-      (call_simX cfg hcfg gr hgr n ih) bS hok bD W hrel top x l sT rD m P
+    have hsp : ∀ r ∈ gr, special r.name r.args.length = false := fun r hr => (hgr r hr).1
+    have LW := level_simW false cfg hcfg gr hgr n
+    have CW := call_simW false cfg gr hgr n LW
+    have CX := call_simX cfg hcfg gr hgr n ih
+    exact body_simX cfg hcfg _ _ CW (dynH_special_err cfg gr hsp n) (call1_simW cfg gr hsp n CW)
+      (late_simW cfg gr n LW) CX (call1_simX cfg gr hsp n CX) (late_simX cfg gr n ih)
+      bS hok bD W hrel top x l sT rD m P
 
 end PrologVerif.Grammar
